@@ -18,14 +18,20 @@ def plan(costfn):
     return out
 
 
-def run(shard, tier, seed, prop, cores, halos, props=None, shrink_per_presig=3, child_value_none=False):
+def run(shard, tier, seed, prop, cores, halos, props=None, shrink_per_presig=3, child_value_none=False, child_moved=False):
     """cores: list of iterables of histories (seed independent); halos: list of (profile, count, maxlen)"""
     from .. import lib, hist
     hist.CHILD_VALUE_NONE[0] = bool(child_value_none)
+    hist.CHILD_MOVED[0] = lib.TYPES[shard['type']] if child_moved else None
     try:
         res = _run(shard, tier, seed, prop, cores, halos, props, shrink_per_presig)
     finally:
         hist.CHILD_VALUE_NONE[0] = False
+        hist.CHILD_MOVED[0] = None
+    if child_moved:
+        for v in res['violations']:
+            v['case']['child_moved'] = True
+            v['sig']['children'] = 'moved-from-another-element'
     if child_value_none:
         for v in res['violations']:
             v['case']['child_value_none'] = True
@@ -65,8 +71,10 @@ def replay_case(rp, prop, props=None):
     from .. import lib, hist
     c = rp['case']
     hist.CHILD_VALUE_NONE[0] = bool(c.get('child_value_none'))
+    hist.CHILD_MOVED[0] = lib.TYPES[c['type']] if c.get('child_moved') else None
     vs, r = hist.decide(lib.TYPES[c['type']], c['type'], c['hist'], tuple(props or (prop,)))
     hist.CHILD_VALUE_NONE[0] = False
+    hist.CHILD_MOVED[0] = None
     mine = [(p, k, d) for p, k, d in vs if p == prop]
     want = rp.get('sig', {}).get('kind')
     return {'violated': any(k == want for _, k, _ in mine) if want else bool(mine), 'violations': mine,
